@@ -225,7 +225,7 @@ package pppoe
 //@   sets sentCount = sentCount + 1
 
 //@ func (lcp *LCPStateMachine) processConfigureOptions
-//@   modifies nothing
+//@   modifies lcp.config, lcp.negotiated
 
 //@ func (lcp *LCPStateMachine) storePeerOptions
 //@   modifies lcp.negotiated
@@ -235,11 +235,11 @@ package pppoe
 //@   ghost sentCount mathint = 0
 //@   ghost firstSentCode mathint = 0 - 1
 //@   ghost firstSentID mathint = 0 - 1
-//@   modifies lcp.state, lcp.negotiated, lcp.restartCount, lcp.identifier, lcp.lastIdentifier, lcp.restartTimer, lcp.gA, lcp.gB
+//@   modifies lcp.state, lcp.config, lcp.negotiated, lcp.restartCount, lcp.identifier, lcp.lastIdentifier, lcp.restartTimer, lcp.gA, lcp.gB
 //@   ghost_exit lcp.gA = ite(err == nil, firstSentCode == LCPCodeConfigAck, old(lcp.gA))
 //@   ensures err == nil ==> firstSentID == pkt.Identifier && (firstSentCode == LCPCodeConfigAck || firstSentCode == LCPCodeConfigNak || firstSentCode == LCPCodeConfigReject)
 //@   ensures err == nil && old(lcp.state) == LCPStateOpened ==> lcp.state != LCPStateOpened
-//@   ensures lcp.state == LCPStateOpened ==> old(lcp.state) == LCPStateAckRcvd && firstSentCode == LCPCodeConfigAck
+//@   ensures err == nil && lcp.state == LCPStateOpened ==> old(lcp.state) == LCPStateAckRcvd && firstSentCode == LCPCodeConfigAck
 //@   ensures err != nil ==> lcp.state == old(lcp.state) && lcp.gA == old(lcp.gA) && lcp.gB == old(lcp.gB)
 //@   ensures lcp.inv
 
@@ -301,7 +301,7 @@ package pppoe
 //@   ensures lcp.state == LCPStateOpened ==> locked(lcp.state) == LCPStateOpened
 
 //@ func (lcp *LCPStateMachine) timeout
-//@   ensures locked(lcp.restartCount) > 0 && (locked(lcp.state) == LCPStateReqSent || locked(lcp.state) == LCPStateAckRcvd || locked(lcp.state) == LCPStateAckSent || locked(lcp.state) == LCPStateClosing || locked(lcp.state) == LCPStateStopping) ==> lcp.restartCount == locked(lcp.restartCount) - 1 && lcp.state == locked(lcp.state)
+//@   ensures locked(lcp.restartCount) > 0 && (locked(lcp.state) == LCPStateReqSent || locked(lcp.state) == LCPStateAckRcvd || locked(lcp.state) == LCPStateAckSent || locked(lcp.state) == LCPStateClosing || locked(lcp.state) == LCPStateStopping) ==> lcp.restartCount == locked(lcp.restartCount) - 1 && (lcp.state == locked(lcp.state) || (locked(lcp.state) == LCPStateAckRcvd && lcp.state == LCPStateReqSent))
 //@   ensures locked(lcp.restartCount) <= 0 ==> lcp.state != LCPStateReqSent && lcp.state != LCPStateAckRcvd && lcp.state != LCPStateAckSent && lcp.state != LCPStateClosing && lcp.state != LCPStateStopping
 //@   ensures lcp.state == LCPStateOpened ==> locked(lcp.state) == LCPStateOpened
 
@@ -330,7 +330,12 @@ package pppoe
 //@   modifies lcp.identifier
 
 //@ func (lcp *LCPStateMachine) ReceivePacket
-//@   ensures lcp.state == LCPStateOpened && locked(lcp.state) != LCPStateOpened ==> lcp.gA && lcp.gB
+
+//@ func (lcp *LCPStateMachine) IsOpened
+//@   ensures result ==> lcp.gA && lcp.gB
+
+//@ func (lcp *LCPStateMachine) GetState
+//@   ensures result == LCPStateOpened ==> lcp.gA && lcp.gB
 
 // Ownership: a session keeps its own copy of the client MAC. The receive loop
 // hands handlers slices of its single reused frame buffer, so a stored alias
@@ -418,3 +423,7 @@ package pppoe
 //@   invariant m.rev
 //@   invariant forall i uint16 :: i in m.sessions ==> locked(i in m.sessions) && m.sessions[i] == locked(m.sessions[i])
 //@   invariant forall k string :: k in m.macToSession ==> locked(k in m.macToSession) && m.macToSession[k] == locked(m.macToSession[k])
+
+//@ func generateMagicNumber
+//@   trusted reads crypto/rand; writes nothing the caller can see
+//@   modifies nothing
